@@ -1,4 +1,5 @@
 import CoapVerif.Model.MsgLayer
+import CoapVerif.Model.MsgLayerX
 import CoapVerif.Spec.SendQueue
 /- Line-protocol driver for the message-layer properties (C06, C08): interprets one scenario line with the model
 `Coap.Msg` and a scripted peer, printing the same canonical trace as harness/msg.c.
@@ -17,6 +18,12 @@ import CoapVerif.Spec.SendQueue
            g:K             repeat `n` at most K times, stop when nothing is pending
            a:S:MID r:S:MID b:S:MID o:S:MID:TOK   an ACK / RST / invalid-code ACK / NON response (token TOK) arrives now
            h:S u:S f:S     session no longer established / coap_session_connected / coap_session_disconnected(NOT_DELIVERABLE)
+           S:S:c|n:MID:R:TOK   application sends CON/NON with the explicit (2-byte) token TOK
+           i:S             an ICMP error is read from the socket of session S (coap_session_disconnected_lkd(ICMP_ISSUE))
+           k:SECS          coap_context_set_keepalive(ctx, SECS)
+         A line containing an S: / i: / k: event is interpreted with the extended model `Coap.MsgX.stepX`
+         (Model/MsgLayerX.lean: keepalive state, `coap_cancel_all_messages` as a pointer walk); every other line with
+         `Coap.Msg.step` exactly as before.
   sq <ops…>               raw queue operations (see `sqStep`)
   trace tokens: tx@T:S:C|N:MID:=  nack@T:S:reason:MID  nackx@… (sent = NULL)  rsp@T:S:MID  sub=MID|rej
                 w@T=MS/E (wait returned by prepare / time to the earliest queued deadline)  [con_active,…;delayq len,…;s.mid.deadline.cnt,…]
@@ -25,7 +32,7 @@ import CoapVerif.Spec.SendQueue
 -- DRIVER-OPS: sq => Coap.Driver.Msg.sqStep
 -- DRIVER-OPS: tmo => Coap.Driver.Msg.tmoStep
 namespace Coap.Driver.Msg
-open Coap Coap.SQ Coap.Msg
+open Coap Coap.SQ Coap.Msg Coap.MsgX
 
 def T0 : Nat := 1000
 
@@ -51,6 +58,10 @@ structure Sim where
   seen : Nat                -- number of outputs already scanned for transmissions
   lastWait : Nat
   es : List Nat := []       -- per logged wait (newest first): time from `now` to the earliest deadline in the queue (0: none)
+  xmode : Bool := false     -- the line is interpreted with the extended model; then (l, pt, prng, ka) is its state
+  pt : Nat := 0
+  prng : Nat := 0
+  ka : List KA := []
   deriving Repr
 
 def nats (s : String) (sep : Char) : Option (List Nat) := (s.split (· == sep)).toList.mapM (·.toString.toNat?)
@@ -96,7 +107,11 @@ def react (sm : Sim) : Sim :=
       | .rst ds => add sm true ds
     | _ => sm) sm
 
-def ev (sm : Sim) (e : Ev) : Sim := react { sm with l := step sm.l e }
+def evX (sm : Sim) (e : EvX) : Sim :=
+  let lx := stepX { l := sm.l, pingTimeout := sm.pt, prng := sm.prng, ka := sm.ka } e
+  react { sm with l := lx.l, pt := lx.pingTimeout, prng := lx.prng, ka := lx.ka }
+
+def ev (sm : Sim) (e : Ev) : Sim := if sm.xmode then evX sm (.base e) else react { sm with l := step sm.l e }
 
 def doPrepare (sm : Sim) : Sim :=
   let sm := ev sm .prepare
@@ -175,10 +190,16 @@ def applyEv (sm : Sim) (w : String) : Option Sim :=
   | ["h", s] => do let s ← s.toNat?; some (ev sm (.hold s))
   | ["u", s] => do let s ← s.toNat?; some (ev sm (.connect s))
   | ["f", s] => do let s ← s.toNat?; some (ev sm (.disconnect s))
+  | ["S", s, c, mid, r, tok] => do
+    let s ← s.toNat?; let mid ← mid.toNat?; let r ← r.toNat?; let tok ← tok.toNat?
+    if !sm.xmode then none
+    else if c = "c" then some (evX sm (.submitT s true mid r tok)) else if c = "n" then some (evX sm (.submitT s false mid r tok)) else none
+  | ["i", s] => do let s ← s.toNat?; if sm.xmode then some (evX sm (.icmp s)) else none
+  | ["k", secs] => do let secs ← secs.toNat?; if sm.xmode then some (evX sm (.keepalive secs)) else none
   | _ => none
 
 def showReason : Reason → String
-  | .retries => "retries" | .rst => "rst" | .undeliv => "undeliv" | .bad => "bad"
+  | .retries => "retries" | .rst => "rst" | .undeliv => "undeliv" | .bad => "bad" | .icmp => "icmp"
 
 def showOut : Out → String
   | .tx t s mid _ con => s!"tx@{t}:{s}:{if con then "C" else "N"}:{mid}:="
@@ -204,7 +225,9 @@ def msgStep (args : List String) : String :=
   | sw :: fw :: evs =>
     match parseSess sw, parseFates fw with
     | some ss, some fs =>
-      let sm0 : Sim := { l := init T0 ss, fates := fs, pend := [], seq := 0, seen := 0, lastWait := 0 }
+      let xmode := evs.any fun w => w.startsWith "S:" || w.startsWith "i:" || w.startsWith "k:"
+      let sm0 : Sim := { l := init T0 ss, fates := fs, pend := [], seq := 0, seen := 0, lastWait := 0,
+                         xmode := xmode, ka := (initX T0 ss).ka }
       let rec loop (sm : Sim) (shown : Nat) (acc : List String) : List String → Option (List String)
         | [] => some acc
         | w :: ws =>
